@@ -105,6 +105,30 @@ public:
 
   explicit Interp(verif::Tape &t) : tape(t) {}
 
+  // machine-integer mode (wrapped domains, property C13): every integer variable
+  // holds the SIGNED value of a w-bit vector, w = the variable's bit width
+  bool machine_ints = false;
+  unsigned wrap_events = 0; // writes whose mathematical result did not fit
+  static z_number p2(unsigned k) { return z_number(1) << z_number((int64_t)k); }
+  static z_number to_unsigned(const z_number &v, unsigned w) {
+    z_number m = p2(w), r = v % m;
+    if (r < 0)
+      r = r + m;
+    return r;
+  }
+  static z_number to_signed(const z_number &v, unsigned w) {
+    z_number u = to_unsigned(v, w);
+    return u >= p2(w - 1) ? u - p2(w) : u;
+  }
+  z_number wrapv(const z_number &v, const var_t &x) {
+    if (!machine_ints || !x.get_type().is_integer())
+      return v;
+    z_number r = to_signed(v, x.get_type().get_integer_bitwidth());
+    if (r != v)
+      wrap_events++;
+    return r;
+  }
+
   z_number arbitrary_int() {
     unsigned k = tape.u8();
     if (k < (unsigned)big_chance)
@@ -116,6 +140,8 @@ public:
   z_number arbitrary_for(const var_t &v) {
     if (v.get_type().is_bool())
       return z_number((int64_t)(tape.u8() & 1));
+    if (machine_ints && v.get_type().is_integer())
+      return to_signed(arbitrary_int(), v.get_type().get_integer_bitwidth());
     return arbitrary_int();
   }
 
@@ -278,6 +304,10 @@ public:
   // ---- statements ---------------------------------------------------------------
   void visit(bin_op_t &s) override {
     z_number a = eval(s.left()), b = eval(s.right()), r;
+    if (machine_ints) {
+      visit_machine(s, a, b);
+      return;
+    }
     switch (s.op()) {
     case crab::cfg::BINOP_ADD: r = a + b; break;
     case crab::cfg::BINOP_SUB: r = a - b; break;
@@ -322,7 +352,57 @@ public:
     }
     st->num[s.lhs()] = r;
   }
-  void visit(assign_t &s) override { st->num[s.lhs()] = eval(s.rhs()); }
+  // w-bit semantics (LLVM): operands are the signed values of w-bit vectors
+  void visit_machine(bin_op_t &s, z_number a, z_number b) {
+    unsigned w = s.lhs().get_type().is_integer() ? s.lhs().get_type().get_integer_bitwidth() : 0;
+    if (w == 0) { outside("machine binop on non-integer"); return; }
+    a = to_signed(a, w); // a constant operand is reduced to the width as well
+    b = to_signed(b, w);
+    z_number au = to_unsigned(a, w), bu = to_unsigned(b, w), r;
+    switch (s.op()) {
+    case crab::cfg::BINOP_ADD: r = a + b; break;
+    case crab::cfg::BINOP_SUB: r = a - b; break;
+    case crab::cfg::BINOP_MUL: r = a * b; break;
+    case crab::cfg::BINOP_SDIV:
+      if (b == 0) { stop = Stop::Blocked; return; }
+      if (b == -1 && a == z_number(0) - p2(w - 1)) { outside("INT_MIN sdiv -1"); return; }
+      r = a / b;
+      break;
+    case crab::cfg::BINOP_SREM:
+      if (b == 0) { stop = Stop::Blocked; return; }
+      if (b == -1 && a == z_number(0) - p2(w - 1)) { outside("INT_MIN srem -1"); return; }
+      r = a % b;
+      break;
+    case crab::cfg::BINOP_UDIV:
+      if (b == 0) { stop = Stop::Blocked; return; }
+      r = au / bu;
+      break;
+    case crab::cfg::BINOP_UREM:
+      if (b == 0) { stop = Stop::Blocked; return; }
+      r = au % bu;
+      break;
+    case crab::cfg::BINOP_AND: r = a & b; break;
+    case crab::cfg::BINOP_OR: r = a | b; break;
+    case crab::cfg::BINOP_XOR: r = a ^ b; break;
+    case crab::cfg::BINOP_SHL:
+      if (bu >= z_number((int64_t)w)) { outside("shift amount >= width"); return; }
+      r = a * p2((unsigned)(int64_t)bu);
+      break;
+    case crab::cfg::BINOP_LSHR:
+      if (bu >= z_number((int64_t)w)) { outside("shift amount >= width"); return; }
+      r = au >> bu;
+      break;
+    case crab::cfg::BINOP_ASHR:
+      if (bu >= z_number((int64_t)w)) { outside("shift amount >= width"); return; }
+      r = a >> bu;
+      break;
+    default:
+      outside("unknown binop");
+      return;
+    }
+    st->num[s.lhs()] = wrapv(r, s.lhs());
+  }
+  void visit(assign_t &s) override { st->num[s.lhs()] = wrapv(eval(s.rhs()), s.lhs()); }
   void visit(assume_t &s) override {
     bool h = holds(s.constraint());
     if (obs)
@@ -333,7 +413,7 @@ public:
   void visit(select_t &s) override {
     bool c = holds(s.cond());
     z_number a = eval(s.left()), b = eval(s.right());
-    st->num[s.lhs()] = c ? a : b;
+    st->num[s.lhs()] = wrapv(c ? a : b, s.lhs());
   }
   void visit(assert_t &s) override {
     bool h = holds(s.constraint());
@@ -357,6 +437,14 @@ public:
     } else if (sty.is_integer() && dty.is_bool()) {
       if (v != 0 && v != 1) { outside("int->bool cast of value outside {0,1}"); return; }
       st->num[s.dst()] = v;
+    } else if (sty.is_integer() && dty.is_integer() && machine_ints) {
+      unsigned ws = sty.get_integer_bitwidth();
+      if (s.op() == crab::cfg::CAST_ZEXT)
+        st->num[s.dst()] = wrapv(to_unsigned(v, ws), s.dst());
+      else if (s.op() == crab::cfg::CAST_SEXT)
+        st->num[s.dst()] = wrapv(to_signed(v, ws), s.dst());
+      else
+        st->num[s.dst()] = wrapv(v, s.dst()); // trunc keeps the low bits
     } else if (sty.is_integer() && dty.is_integer()) {
       if (s.op() == crab::cfg::CAST_ZEXT) {
         unsigned w = sty.get_integer_bitwidth();
